@@ -69,22 +69,22 @@ type lookupRes struct {
 }
 
 type response struct {
-	Res     string      `json:"res,omitempty"` // ok | err | crash | panic
-	Err     string      `json:"err,omitempty"`
-	Out     string      `json:"out,omitempty"`
-	Size    int64       `json:"size,omitempty"`
-	Log     any         `json:"log,omitempty"`
-	Seek1   bool        `json:"seek1"`
-	Pass1N  int         `json:"pass1n"`
-	Ok1     bool        `json:"ok1"`
-	Seek2   bool        `json:"seek2"`
-	Seeks   int         `json:"seeks"`
-	Pass2   []int       `json:"pass2,omitempty"`
-	Lookups []lookupRes `json:"lookups,omitempty"`
-	Results [][]string  `json:"results,omitempty"`
-	Chosen  []int       `json:"chosen,omitempty"`
-	Shimmed bool        `json:"shimmed"`
-	Viol    []string    `json:"viol,omitempty"`
+	Res     string         `json:"res,omitempty"` // ok | err | crash | panic
+	Err     string         `json:"err,omitempty"`
+	Out     string         `json:"out,omitempty"`
+	Size    int64          `json:"size,omitempty"`
+	Log     any            `json:"log,omitempty"`
+	Seek1   bool           `json:"seek1"`
+	Pass1N  int            `json:"pass1n"`
+	Ok1     bool           `json:"ok1"`
+	Seek2   bool           `json:"seek2"`
+	Seeks   int            `json:"seeks"`
+	Pass2   []int          `json:"pass2,omitempty"`
+	Lookups []lookupRes    `json:"lookups,omitempty"`
+	Results [][]string     `json:"results,omitempty"`
+	Chosen  []int          `json:"chosen,omitempty"`
+	Shimmed bool           `json:"shimmed"`
+	Viol    []string       `json:"viol,omitempty"`
 	Counts  map[string]int `json:"counts,omitempty"`
 }
 
@@ -194,6 +194,7 @@ func (s *srcReader) Read(p []byte) (int, error) {
 // ---- commands
 
 var dir string
+var curCache *cache.Cache
 
 func openCache() *cache.Cache {
 	c, err := cache.Open(dir)
@@ -304,6 +305,15 @@ func runClientOp(c *cache.Cache, o clientOp) (s string) {
 			return "PUTFAILED"
 		}
 		return fmt.Sprintf("PUTOK %s %d", hex.EncodeToString(out[:]), n)
+	case "putbytes":
+		d := unhex(o.Data)
+		if err := c.PutBytes(id, d); err != nil {
+			return "PUTFAILED"
+		}
+		out := sha256.Sum256(d)
+		return fmt.Sprintf("PUTOK %s %d", hex.EncodeToString(out[:]), len(d))
+	case "outputfile":
+		return filepath.Base(c.OutputFile(cache.OutputID(id)))
 	case "putdiff":
 		out, n, err := c.Put(id, &srcReader{data: unhex(o.Data), spec: "diff2", r: o.R})
 		if err != nil {
@@ -520,7 +530,15 @@ func main() {
 					switch req.Cmd {
 					case "open":
 						dir = req.Dir
-						openCache()
+						curCache = openCache()
+						resp.Res = "ok"
+					case "op":
+						// one API call on the handle opened by "open", with the operations it performed
+						ctlReset(nil)
+						r := runClientOp(curCache, clientOp{Op: req.Reader, ID: req.ID, Data: req.Data})
+						resp.Results = [][]string{{r}}
+						resp.Log = ctlLog()
+						ctlReset(nil)
 						resp.Res = "ok"
 					case "put":
 						resp = doPut(&req)
